@@ -45,3 +45,19 @@ Definition chk_topmol (text : string) (ot : res obs_top) (om : res (string * lis
 (* C16: ItpFile observation + written text + read_topology on the same text, in one case *)
 Definition chk_itp_top (text : string) (o : res obs_file) (written : string) (ot : res obs_top) : nat :=
   Nat.max (chk_itp text o written) (chk_top text ot).
+
+(* MoleculeTop.copy on the CURRENT state of an object (after mutations through the public API): the heap model
+   builds the object graph of the observed current value, copies it, and must give the observed copy
+   (name, atoms with bonds) and the observed value of `copy == original`. *)
+From GM Require Import Model.TopHeap.
+Definition atom_of_obs (o : obs_atom) : atomtop :=
+  let '(n, rn, rid, idx, bs) := o in
+  {| at_name := la n; at_resname := la rn; at_resid := rid; at_index := Z.to_nat idx; at_bonds := map Z.to_nat bs |}.
+Definition chk_copy (name : string) (cur : list obs_atom) (o : res (string * list obs_atom * bool)) : nat :=
+  let mh := build_mol [] (la name) (map atom_of_obs cur) [] in
+  chk_res (fun v o => let '(n, atoms, e) := v in let '(n', atoms', e') := o in
+                      seqb n n' && all2 atom_agree atoms atoms' && Bool.eqb e e')
+          (let* ch := mol_copy (snd mh) (fst mh) in
+           let* v := view (snd ch) (fst ch) in
+           let* e := mol_eq (snd ch) (fst mh) (fst ch) in
+           Ok (snd (fst v), snd v, e)) o.
